@@ -16,6 +16,11 @@ fn main() {
         usage();
     }
     let id = argv[1].clone();
+    if id == "fuzz-seeds" {
+        let dir = std::path::PathBuf::from(argv.get(2).cloned().unwrap_or_else(|| usage()));
+        tarpc_verif::fuzzing::write_seeds(&dir).expect("write seeds");
+        return;
+    }
     let mut args = RunArgs {
         tier: match std::env::var("VERIF_TIER").as_deref() {
             Ok("thorough") => Tier::Thorough,
@@ -56,6 +61,42 @@ fn main() {
             _ => usage(),
         }
         i += 1;
+    }
+    // a replay file that is not JSON is a saved libFuzzer input for this property's fuzz target
+    if let Some(path) = &args.replay {
+        if let Ok(bytes) = std::fs::read(path) {
+            if serde_json::from_slice::<serde_json::Value>(&bytes).is_err() {
+                let target = match id.as_str() {
+                    "C16" => "decode",
+                    "C15" => "roundtrip",
+                    "C02" | "C03" | "C05" | "C14" => "sched_client",
+                    "C04" | "C06" | "C08" | "C12" => "sched_server",
+                    _ => {
+                        println!("INCONCLUSIVE: {id} has no fuzz target and the replay file is not JSON");
+                        std::process::exit(2);
+                    }
+                };
+                std::env::set_var("VERIF_FUZZ_ONLY", &id);
+                tarpc_verif::sim::exec::install_panic_hook();
+                let r = std::thread::Builder::new()
+                    .stack_size(64 << 20)
+                    .spawn(move || tarpc_verif::fuzzing::replay(target, &bytes))
+                    .expect("spawn")
+                    .join()
+                    .unwrap_or_else(|_| Err("replay thread panicked".into()));
+                match r {
+                    Ok(()) => {
+                        println!("replay {id} (fuzz input for target {target}): property held");
+                        std::process::exit(0);
+                    }
+                    Err(m) => {
+                        println!("replay {id} (fuzz input for target {target}): {m}");
+                        println!("VIOLATION property={id} replay={}", path.display());
+                        std::process::exit(1);
+                    }
+                }
+            }
+        }
     }
     let code = props::dispatch(&id, &args);
     std::process::exit(code);
